@@ -78,6 +78,9 @@ Step(e) ==
      /\ nreq' = nreq + 1 /\ acked' = acked \cup {nreq + 1} /\ before' = (nreq + 1 :> Ids(emitted)) @@ before
      /\ viol' = viol \cup (IF \A i \in DOMAIN All : (All[i].job > 0 /\ All[i].job \in liveJobs) => All[i].id \in kept
                            THEN {} ELSE {V("C12_PruneKeepsLiveRecords", e), V("C10_AckedIsDurable", e)})
+                     \* the pruned file is a part of the journal: its records are records of the journal, once each, in their order
+                     \* (nothing of an older, interrupted prune is mixed in)
+                     \cup (IF Known(e.file) = IdSeq(newFile) /\ ~e.torn THEN {} ELSE {V("C12_PrunedFileIsPartOfJournal", e)})
                      \cup (IF ok THEN {} ELSE {V("AUX_Conf_JournalThread:P", e)})
      /\ lost' = ~ok
      /\ UNCHANGED <<emitted, tmp, pc, cur, replies, crashes, alive, run>>
